@@ -9,7 +9,7 @@
 -/
 import Ctrmml.Model.MdsConv
 import Ctrmml.Spec.SeqWf
-import Ctrmml.Proofs.CodecLoops
+import Ctrmml.Proofs.CodecBreak
 namespace Ctrmml.C03
 open Ctrmml Ctrmml.Mds Ctrmml.Seq Tables
 
@@ -150,6 +150,20 @@ theorem C03_codec_never_reads_outside_partial (nS nM : Nat) (ts : List Node) (hl
           [Stop.finished, Stop.fuel, Stop.tooManyTicks] := by
   obtain ⟨bytes, h1, h2⟩ := codec_roundtrip_loops_nobreak nS nM ts hl hn farg
   exact ⟨bytes, h1, fun base mj maxTicks fuel ln lr => (h2 base mj ln lr).safe maxTicks fuel⟩
+
+/-- the same for every bracket structure, loops WITH break included (restriction: leaves in the
+linear fragment, terminated by `FINISH`, stream shorter than 64 KiB; `Codec.encL` = the structured
+encoder of `C02_convert_structured_eq`) -/
+theorem C03_codec_never_reads_outside_loops_partial (nS nM : Nat) (ts : List Node) (hl : linL ts = true)
+    (farg : Nat) :
+    ∃ e', encL nS nM ts {} = .ok e' ∧
+      (e'.out.length + 1 < 65536 →
+        convertTrack nS nM (flatL ts ++ [⟨mds_FINISH, farg⟩]) = .ok (e'.out ++ [mds_FINISH]) ∧
+        ∀ (base mj maxTicks fuel : Nat) (ln lr : Option Nat),
+          (run (e'.out ++ [mds_FINISH]) base mj maxTicks fuel { pc := 0, lastNote := ln, lastRest := lr }).2 ∈
+            [Stop.finished, Stop.fuel, Stop.tooManyTicks]) := by
+  obtain ⟨e', h1, h2⟩ := codec_roundtrip_loops nS nM ts hl farg
+  exact ⟨e', h1, fun hb => ⟨(h2 hb).1, fun base mj maxTicks fuel ln lr => ((h2 hb).2 base mj ln lr).safe maxTicks fuel⟩⟩
 
 /-- the same for a looping track `a ++ [SEGNO] ++ b ++ [JUMP]` (`a`, `b` linear, stream < 64 KiB),
 however often the jump is followed -/
